@@ -448,5 +448,8 @@ pub fn catch<R>(f: impl FnOnce() -> R) -> Result<R, String> {
 }
 
 pub fn quiet_panics() {
+    if std::env::var("VERIF_LOUD").is_ok() {
+        return;
+    }
     std::panic::set_hook(Box::new(|_| {}));
 }
